@@ -26,7 +26,10 @@ import ast
 import os
 
 from ..core import lua as L
+from typing import Optional
+
 from ..core.callgraph import CallGraph
+from ..core.flow import Flow
 from ..core.index import FuncRef, unparse, walk_no_nested
 from ..core.report import AnalysisError, Finding, RuleResult
 
@@ -463,30 +466,108 @@ def rule_r2(ctx) -> RuleResult:
     return rr
 
 
+def _stack_empty_test(test) -> Optional[bool]:
+    """True if `test` holds exactly when ctx.lua_env_stack is empty, False if exactly when it is not, else None"""
+    if isinstance(test, ast.UnaryOp) and isinstance(test.op, ast.Not):
+        if unparse(test.operand).endswith("lua_env_stack"):
+            return True
+        v = _stack_empty_test(test.operand)
+        return None if v is None else not v
+    if unparse(test).endswith("lua_env_stack") and isinstance(test, ast.Attribute):
+        return False
+    if isinstance(test, ast.Compare) and len(test.ops) == 1:
+        l, op, r = test.left, test.ops[0], test.comparators[0]
+        if isinstance(r, ast.Call) and isinstance(l, ast.Constant):
+            l, r = r, l
+            op = {ast.Lt: ast.Gt, ast.Gt: ast.Lt, ast.LtE: ast.GtE, ast.GtE: ast.LtE}.get(type(op), type(op))()
+        if isinstance(l, ast.Call) and unparse(l.func) == "len" and l.args and unparse(l.args[0]).endswith("lua_env_stack") \
+                and isinstance(r, ast.Constant) and isinstance(r.value, int):
+            c = r.value
+            if (isinstance(op, ast.Eq) and c == 0) or (isinstance(op, ast.Lt) and c == 1) or (isinstance(op, ast.LtE) and c == 0):
+                return True
+            if (isinstance(op, ast.NotEq) and c == 0) or (isinstance(op, ast.Gt) and c == 0) or (isinstance(op, ast.GtE) and c == 1):
+                return False
+    return None
+
+
+def _reset_preparers(ctx) -> set:
+    """names of package functions (other than the two primitives) from which initialize_lua / lua_reset_env is reachable"""
+    mod = ctx.index.mod("luaexec")
+    direct = {}
+    for name, f in mod.funcs.items():
+        calls = {unparse(n.func).split(".")[-1] for n in ast.walk(f) if isinstance(n, ast.Call)}
+        direct[name.split(".")[-1]] = calls
+    out = set()
+    changed = True
+    while changed:
+        changed = False
+        for name, calls in direct.items():
+            if name in out or name in ("initialize_lua", "call_lua_sandbox"):
+                continue
+            if calls & ({"initialize_lua", "lua_reset_env"} | out):
+                out.add(name)
+                changed = True
+    return out
+
+
 def rule_r3(ctx) -> RuleResult:
     rr = RuleResult("C09.R3", "Lua environment is reset per top-level invocation and cloned per module run", min_instances=5)
     fn = ctx.fn("luaexec.call_lua_sandbox")
     LX = "src/wikitextprocessor/luaexec.py"
-    outer = [n for n in fn.body if isinstance(n, ast.If) and unparse(n.test) == "len(ctx.lua_env_stack) == 0"]
     inv = [n for n in ast.walk(fn) if isinstance(n, ast.Call) and unparse(n.func) == "ctx.lua_invoke"]
     if not inv:
         raise AnalysisError("call_lua_sandbox: ctx.lua_invoke(...) vanished")
-    if len(outer) == 1 and outer[0].lineno < inv[0].lineno:
-        o = outer[0]
-        inner = [n for n in o.body if isinstance(n, ast.If) and unparse(n.test) == "ctx.lua is None"]
-        good = False
-        if len(inner) == 1 and inner[0].orelse:
-            first = inner[0].orelse[0]
-            good = isinstance(first, ast.Expr) and isinstance(first.value, ast.Call) and unparse(first.value.func) == "ctx.lua_reset_env"
-        if good:
-            rr.ok("luaexec.call_lua_sandbox", "top-level invocation on an existing runtime starts with ctx.lua_reset_env()",
-                  {"guard": unparse(o.test), "else_of": "ctx.lua is None"})
-        else:
-            rr.bad(Finding("C09.R3", LX, "luaexec.call_lua_sandbox", "ctx.lua_reset_env()",
-                           "a top-level invocation on an existing runtime no longer resets the Lua environment first", o.lineno))
+    # path rule: on every path to ctx.lua_invoke(...) on which the environment stack may be empty (a top-level
+    # invocation), the runtime has been created (initialize_lua) or reset (ctx.lua_reset_env()) first
+    preparers = _reset_preparers(ctx)
+    reached = []
+
+    class W(Flow):
+        # state: (top, fresh, prepared, opaque)   top/fresh in "T","F","?"
+        def transfer_expr(self, node, state):
+            if node is None:
+                return [state]
+            top, fresh, prep, opaque = state
+            evs = []
+            for n in ast.walk(node):
+                if isinstance(n, ast.Call):
+                    evs.append((n.end_lineno, n.end_col_offset, n))
+            for _, _, n in sorted(evs, key=lambda x: (x[0], x[1])):
+                f = unparse(n.func)
+                if f == "ctx.lua_invoke":
+                    reached.append((n, (top, fresh, prep, opaque)))
+                elif f in ("initialize_lua", "ctx.lua_reset_env"):
+                    prep = True
+                elif f.split(".")[-1] in preparers:
+                    opaque = True
+            return [(top, fresh, prep, opaque)]
+
+        def branch(self, test, state):
+            top, fresh, prep, opaque = state
+            v = _stack_empty_test(test)
+            if v is not None:
+                t = [] if top == ("F" if v else "T") else [("T" if v else "F", fresh, prep, opaque)]
+                f = [] if top == ("T" if v else "F") else [("F" if v else "T", fresh, prep, opaque)]
+                return t, f
+            return [state], [state]
+
+        def nested_def(self, node, state):
+            return [state]
+
+    W().run_function(fn, [("?", "?", False, False)])
+    if not reached:
+        raise AnalysisError("call_lua_sandbox: no path to ctx.lua_invoke(...) found by the flow walk")
+    unprepared = [(n, st) for n, st in reached if st[0] != "F" and not st[2]]
+    if unprepared and any(st[3] for _, st in unprepared):
+        raise AnalysisError("call_lua_sandbox: the reset of the Lua environment happens inside a helper that was not inlined; "
+                            "the path rule cannot be decided")
+    if unprepared:
+        rr.bad(Finding("C09.R3", LX, "luaexec.call_lua_sandbox", "ctx.lua_reset_env()",
+                       "a path reaches ctx.lua_invoke(...) for a top-level invocation (environment stack empty) without creating or "
+                       "resetting the Lua environment first", unprepared[0][0].lineno))
     else:
-        rr.bad(Finding("C09.R3", LX, "luaexec.call_lua_sandbox", "if len(ctx.lua_env_stack) == 0: ...",
-                       "the reset-on-top-level-invocation block no longer precedes lua_invoke", fn.lineno))
+        rr.ok("luaexec.call_lua_sandbox", "every path to ctx.lua_invoke on which the environment stack may be empty passes "
+              "initialize_lua(ctx) or ctx.lua_reset_env()", {"paths_to_invoke": len(reached)})
     # both stacks popped after the call on every path: statements after the try
     pops = [n for n in fn.body if isinstance(n, ast.If) and "lua_env_stack" in unparse(n.test) and "pop()" in unparse(n)]
     popf = [n for n in fn.body if isinstance(n, ast.If) and "lua_frame_stack" in unparse(n.test) and "pop()" in unparse(n)]
